@@ -310,7 +310,7 @@ func (c *Collection) WriteUpdateWithXattrs(
 				if len(updatedDoc.XattrsToDelete) > 0 {
 					return 0, sgbucket.ErrDeleteXattrOnTombstone
 				}
-				casOut, err = c.WriteResurrectionWithXattrs(ctx, key, exp, updatedDoc.Doc, updatedDoc.Xattrs, opts)
+				casOut, err = c.writeResurrectionWithXattrs(key, exp, updatedDoc.Doc, updatedDoc.Xattrs, opts, previous.Cas)
 			} else {
 				// Update body and/or xattr:
 				casOut, err = c.WriteWithXattrs(ctx, key, exp, cas, updatedDoc.Doc, updatedDoc.Xattrs, updatedDoc.XattrsToDelete, opts)
@@ -388,6 +388,12 @@ func (c *Collection) WriteTombstoneWithXattrs(
 
 // WriteResurrectionWithXattrs creates an alive document with a given tombstone and xattrs.
 func (c *Collection) WriteResurrectionWithXattrs(ctx context.Context, k string, exp uint32, value []byte, xattrsValues map[string][]byte, opts *sgbucket.MutateInOptions) (casOut uint64, err error) {
+	return c.writeResurrectionWithXattrs(k, exp, value, xattrsValues, opts, 0)
+}
+
+// Resurrects a tombstone. If tombstoneCas is nonzero the tombstone must still be the version with that
+// CAS (the one WriteUpdateWithXattrs showed its callback); otherwise the result is a CasMismatchErr.
+func (c *Collection) writeResurrectionWithXattrs(k string, exp uint32, value []byte, xattrsValues map[string][]byte, opts *sgbucket.MutateInOptions, tombstoneCas CAS) (casOut uint64, err error) {
 	if value == nil {
 		return 0, sgbucket.ErrNeedBody
 	}
@@ -403,7 +409,7 @@ func (c *Collection) WriteResurrectionWithXattrs(ctx context.Context, k string, 
 		}
 		xattrs[xattrKey] = payload{marshaled: xv}
 	}
-	return c.writeWithXattrs(k, vp, xattrs, nil, expP, writeXattrOptions{insertDoc: true}, opts)
+	return c.writeWithXattrs(k, vp, xattrs, nil, expP, writeXattrOptions{insertDoc: true, tombstoneCas: tombstoneCas}, opts)
 }
 
 // Updates an xattr and deletes the body (making the doc a tombstone.)
@@ -500,6 +506,7 @@ type writeXattrOptions struct {
 	isDelete           bool // Allow ressurecting a tombstone
 	requireExistingDoc bool // Return KeyNotFoundError if doc doesn't already exist
 	deleteBody         bool // Delete the body along with updating tombstone
+	tombstoneCas       CAS  // If nonzero, a tombstone being resurrected must have this CAS
 }
 
 // checkCasXattr checks the cas supplied against the current cas of the document. existingCas is the current Cas of the document (will be 0 if no document) and expectedCas is the expected value. Returns CasMismatchErr on an unsuccesful CAS check.
@@ -555,6 +562,9 @@ func (c *Collection) writeWithXattrs(
 				if ifCas != nil && *ifCas != 0 {
 					return nil, sgbucket.ErrKeyExists
 				}
+				if opts.tombstoneCas != 0 && opts.tombstoneCas != prevCas {
+					return nil, sgbucket.CasMismatchErr{Expected: opts.tombstoneCas, Actual: prevCas}
+				}
 				e.xattrs = nil // xattrs are cleared whenever resurrecting a tombstone
 				e.exp = 0      // ...and a tombstone has no expiry for PreserveExpiry to keep
 			} else if opts.insertDoc {
@@ -565,6 +575,8 @@ func (c *Collection) writeWithXattrs(
 				return nil, sgbucket.MissingError{Key: key}
 			} else if ifCas != nil && *ifCas != 0 {
 				return nil, sgbucket.CasMismatchErr{Expected: *ifCas, Actual: 0}
+			} else if opts.tombstoneCas != 0 {
+				return nil, sgbucket.CasMismatchErr{Expected: opts.tombstoneCas, Actual: 0}
 			}
 		} else {
 			return nil, remapKeyError(err, key)
